@@ -3,7 +3,14 @@ from plan import H
 
 PIN = [("ruint::algorithms::div::div_nx1", "stubs::pinned_div_nx1"),
        ("ruint::algorithms::div::div_nx2", "stubs::pinned_div_nx2"),
-       ("ruint::algorithms::div::div_nxm", "stubs::pinned_div_nxm")]
+       ("ruint::algorithms::div::div_nxm", "stubs::pinned_div_nxm"),
+       ("ruint::algorithms::LehmerMatrix::from_u128_prefix", "stubs::pinned_from_u128_prefix")]
+
+
+def UNW(b):
+    # from_u64's loop makes two division steps per iteration; Euclid on b-bit operands needs at most
+    # {1:1, 2:2, 3:4, 4:5, 5:7, 6:8, 8:12} steps (consecutive Fibonacci numbers)
+    return {1: 3, 2: 3, 3: 4, 4: 5, 5: 6, 6: 6, 8: 8}[b]
 FNS = {"gcd": ["gcd", "algorithms::gcd", "LehmerMatrix::from", "LehmerMatrix::from_u64", "LehmerMatrix::apply"],
        "lcm": ["lcm", "gcd", "checked_div", "checked_mul"],
        "gcd_extended": ["gcd_extended", "algorithms::gcd_extended", "LehmerMatrix::from_u64", "LehmerMatrix::apply"],
@@ -16,10 +23,10 @@ def harnesses():
     out = []
     for b in [1, 2, 3, 4, 5, 6, 8]:
         for fn in ["gcd", "lcm", "gcd_extended", "matrix"]:
-            cov = [c for c in COV[fn] if not (b == 1 and c in ("coprime", "common-factor", "lcm-overflows", "lcm-fits"))]
+            cov = [c for c in COV[fn] if not (b == 1 and c in ("coprime", "common-factor", "lcm-overflows", "lcm-fits", "sign-true"))]
             if b == 2:
                 cov = [c for c in cov if c not in ("common-factor", "lcm-fits")]
-            out.append(H("c12_%s_narrow_%d" % (fn, b), "C12", "c12::%s_narrow::<%d>" % (fn, b), unwind=16,
+            out.append(H("c12_%s_narrow_%d" % (fn, b), "C12", "c12::%s_narrow::<%d>" % (fn, b), unwind=UNW(b),
                          tier="quick" if b in (1, 3) else "thorough", timeout=3600, inst="Uint<%d,1>" % b, stubs=PIN,
                          role="c12::" + fn, domain="every operand pair of the width; real code; slice division kernels "
                          "pinned unreachable; oracle: Euclid on u8", free_bits=2 * b, fns=FNS[fn], covers_required=cov))
